@@ -276,6 +276,10 @@ def random_ops(r, cfg):
 
         do(("heal",))
         if cfg.probe:
+            # first observation BEFORE any new traffic: what was sent must have arrived and the queues
+            # must be empty once the healed network has drained (a probe message would wake up
+            # whatever got stuck - a message stranded in a reassembly or flush queue)
+            do(("quiesce",))
             # after the network healed, traffic must flow again on every open channel
             for i, t in enumerate(toks):
                 if t is None:
